@@ -17,7 +17,6 @@ import contextlib
 import io
 import itertools
 import os
-import re
 import subprocess
 import sys
 
